@@ -1,4 +1,227 @@
 import EaselModel.Core.Proto
-/-! Line-protocol driver for the C08 model (stub: answers bad-op until the model lands). -/
-open EaselModel.Proto
-def main : IO Unit := runDriver () (fun s _ => (s, "bad-op"))
+import EaselModel.Alphabet.Model
+import EaselModel.Alphabet.SqModel
+/-! Line-protocol driver for the C08 model (same ops as harness/h_alphabet.c). -/
+open EaselModel EaselModel.Proto EaselModel.Alphabet
+
+structure S where
+  a : Option Alphabet := none
+  d : Option (List Nat) := none     -- whole dsq array incl. sentinels
+  L : Nat := 0
+  t : Option (List Nat) := none
+
+def hx (l : List Nat) : String := hexOrDash (l.map UInt8.ofNat)
+
+def argBytes (ws : List String) (k : String) : List Nat :=
+  match argHex? ws k with
+  | some b => b.map (·.toNat)
+  | none => []
+
+def cstr (l : List Nat) : List Nat := l.takeWhile (· ≠ 0)
+
+def hex64 (x : UInt64) : String :=
+  let s := (Nat.toDigits 16 x.toNat)
+  String.ofList (List.replicate (16 - s.length) '0' ++ s)
+def hex32 (x : UInt32) : String :=
+  let s := (Nat.toDigits 16 x.toNat)
+  String.ofList (List.replicate (8 - s.length) '0' ++ s)
+
+def parseHexNat (w : String) : Option Nat :=
+  w.toList.foldl (fun acc c => acc.bind fun a => (hexVal c).map fun d => a * 16 + d) (some 0)
+
+def parseDList (s : String) : List Float :=
+  if s == "-" then [] else
+  (s.splitOn ",").filterMap fun w => (parseHexNat w).map fun n => Float.ofBits (UInt64.ofNat n)
+def parseFList (s : String) : List Float32 :=
+  if s == "-" then [] else
+  (s.splitOn ",").filterMap fun w => (parseHexNat w).map fun n => Float32.ofBits (UInt32.ofNat n)
+def parseIList (s : String) : List Int :=
+  if s == "-" then [] else (s.splitOn ",").filterMap String.toInt?
+
+def dnum (x : Float) : String := if x.isNaN then "nan" else hex64 x.toBits
+def fnum (x : Float32) : String := if x.isNaN then "nan" else hex32 x.toBits
+
+instance : Alphabet.ScoreNum Float where
+  zero := 0.0
+  add := (· + ·)
+  sub := (· - ·)
+  mul := (· * ·)
+  div := (· / ·)
+  ofNat := Float.ofNat
+
+instance : Alphabet.ScoreNum Float32 where
+  zero := 0.0
+  add := (· + ·)
+  sub := (· - ·)
+  mul := (· * ·)
+  div := (· / ·)
+  ofNat := Float32.ofNat
+
+def dump (a : Alphabet) : String :=
+  s!"ok type={a.type} K={a.K} Kp={a.Kp} sym={hx a.sym} inmap={hx a.inmap} degen={hx a.degen.flatten} " ++
+  s!"ndegen={",".intercalate (a.ndegen.map toString)} comp=" ++
+  (match a.complement with | some c => hx c | none => "null")
+
+def outDsq (pre : String) (d : Option (List Nat)) : String :=
+  pre ++ " dsq=" ++ (match d with | some d => hx d | none => "null")
+
+/-- `(int)(result ± 0.5)` of esl_abc_IAvgScore: float result promoted to double, truncation toward zero -/
+def roundI (r : Float32) : Int :=
+  let d := r.toFloat
+  if d < 0 then (d - 0.5).toInt64.toInt else (d + 0.5).toInt64.toInt
+
+def doDigitize (s : S) (a : Alphabet) (txt : List Nat) : S × String :=
+  let (st, d) := a.digitize (cstr txt)
+  ({ s with d := some d, L := d.length - 2 }, outDsq s!"st={st.name}" (some d))
+
+def step (s : S) (line : String) : S × String :=
+  let ws := words line
+  match ws with
+  | [] => (s, "bad-op")
+  | op :: _ =>
+  if op == "abc" then
+    let r := match arg? ws "type" with
+      | some "dna" => some Alphabet.createDna | some "rna" => some Alphabet.createRna
+      | some "amino" => some Alphabet.createAmino | some "coins" => some Alphabet.createCoins
+      | some "dice" => some Alphabet.createDice | _ => none
+    match r with
+    | none => (s, "bad-op")
+    | some none => ({ s with a := none }, "null")
+    | some (some a) => ({ s with a := some a }, dump a)
+  else if op == "custom" then
+    let sym := argBytes ws "sym"
+    let K := (argNat? ws "K").getD 1
+    let Kp := (argNat? ws "Kp").getD sym.length
+    match Alphabet.createCustom (cstr sym) K Kp with
+    | none => ({ s with a := none }, "null")
+    | some a => ({ s with a := some a }, dump a)
+  else
+  match s.a with
+  | none => (s, "bad-op")
+  | some a =>
+  if op == "dump" then (s, dump a)
+  else if op == "equiv" then
+    let (st, a') := a.setEquiv ((argNat? ws "s").getD 0) ((argNat? ws "c").getD 0)
+    ({ s with a := some a' }, st.name)
+  else if op == "caseins" then
+    let (st, a') := a.setCaseInsensitive
+    ({ s with a := some a' }, st.name)
+  else if op == "degen" then
+    let (st, a') := a.setDegeneracy ((argNat? ws "c").getD 0) (cstr (argBytes ws "ds"))
+    ({ s with a := some a' }, st.name)
+  else if op == "ignored" then
+    ({ s with a := some (a.setIgnored (cstr (argBytes ws "chars"))) }, "ok")
+  else if op == "digitize" || op == "createdsq" then doDigitize s a (argBytes ws "hex")
+  else if op == "redigitize" then
+    match s.t with
+    | none => (s, "bad-op")
+    | some t => doDigitize s a t
+  else if op == "textize" then
+    match s.d with
+    | none => (s, "bad-op")
+    | some d =>
+      match a.textize d s.L with
+      | some t => ({ s with t := some t }, s!"ok {hx t}")
+      | none => (s, "fault")
+  else if op == "textizen" then
+    match s.d, argNat? ws "off", argNat? ws "L" with
+    | some d, some off, some L =>
+      if off > s.L + 1 then (s, "bad-op") else
+      match a.textizeN d off L 0 [] with
+      | some w => (s, s!"ok {hx (w ++ List.replicate (L - w.length) 170)}")
+      | none => (s, "fault")
+    | _, _, _ => (s, "bad-op")
+  else if op == "dsqnull" then ({ s with d := none, L := 0 }, "ok")
+  else if op == "dsqcat" then
+    let txt := argBytes ws "hex"
+    let inmap := match argHex? ws "map" with
+      | some m => if m.length = 128 then m.map (·.toNat) else a.inmap.set 0 a.unknown
+      | none => a.inmap.set 0 a.unknown
+    let Lk := if arg? ws "L" == some "unknown" then none else some s.L
+    let txt := if arg? ws "n" == some "unknown" then cstr txt else txt
+    match Alphabet.dsqcat inmap s.d Lk txt with
+    | none => (s, "fault")
+    | some (.error e) => ({ s with d := none, L := 0 }, s!"exception {e.name}")
+    | some (.ok (st, d', L')) => ({ s with d := d', L := L' }, outDsq s!"st={st.name} L={L'}" d')
+  else if op == "revcomp" then
+    match s.d with
+    | none => (s, "bad-op")
+    | some d =>
+      let n := (argNat? ws "n").getD s.L
+      if n > s.L then (s, "bad-op") else
+      match a.revcomp d n with
+      | .error e => (s, s!"exception {e.name}")
+      | .ok none => (s, "fault")
+      | .ok (some d') => ({ s with d := some d' }, outDsq "st=ok" (some d'))
+  else if op == "dsqlen" then
+    match s.d with
+    | none => (s, "bad-op")
+    | some d => match Alphabet.dsqlen d with | some n => (s, s!"ok {n}") | none => (s, "fault")
+  else if op == "dsqrlen" then
+    match s.d with
+    | none => (s, "bad-op")
+    | some d => match a.dsqrlen d with | some n => (s, s!"ok {n}") | none => (s, "fault")
+  else if op == "degen2x" then
+    match s.d with
+    | none => (s, "bad-op")
+    | some d => match a.convertDegen2X d with
+      | some d' => ({ s with d := some d' }, outDsq "st=ok" (some d'))
+      | none => (s, "fault")
+  else if op == "cdealign" then
+    match s.d with
+    | none => (s, "bad-op")
+    | some d =>
+      let t := argBytes ws "s"
+      if t.length ≠ s.L then (s, "bad-op") else
+      match a.cDealign t d with
+      | some (t', n) => (s, s!"ok rlen={n} s={hx (cstr t')}")
+      | none => (s, "fault")
+  else if op == "xdealign" then
+    match s.d with
+    | none => (s, "bad-op")
+    | some d =>
+      let x := argBytes ws "x"
+      if x.length ≠ s.L + 2 then (s, "bad-op") else
+      match a.xDealign x d with
+      | some (x', n) => (s, s!"ok rlen={n} x={hx x'}")
+      | none => (s, "fault")
+  else if op == "davg" then
+    match a.avgScore ((argNat? ws "x").getD 0) (parseDList ((arg? ws "sc").getD "-")) with
+    | some r => (s, s!"ok {dnum r}") | none => (s, "fault")
+  else if op == "dexpect" then
+    match a.expectScore ((argNat? ws "x").getD 0) (parseDList ((arg? ws "sc").getD "-")) (parseDList ((arg? ws "p").getD "-")) with
+    | some r => (s, s!"ok {dnum r}") | none => (s, "fault")
+  else if op == "dcount" then
+    let wt := match (arg? ws "wt").bind parseHexNat with | some n => Float.ofBits (UInt64.ofNat n) | none => 0.0
+    match a.count (parseDList ((arg? ws "sc").getD "-")) ((argNat? ws "x").getD 0) wt with
+    | some ct => (s, "ok " ++ ",".intercalate (ct.map dnum)) | none => (s, "fault")
+  else if op == "favg" then
+    match a.avgScore ((argNat? ws "x").getD 0) (parseFList ((arg? ws "sc").getD "-")) with
+    | some r => (s, s!"ok {fnum r}") | none => (s, "fault")
+  else if op == "fexpect" then
+    match a.expectScore ((argNat? ws "x").getD 0) (parseFList ((arg? ws "sc").getD "-")) (parseFList ((arg? ws "p").getD "-")) with
+    | some r => (s, s!"ok {fnum r}") | none => (s, "fault")
+  else if op == "fcount" then
+    let wt := match (arg? ws "wt").bind parseHexNat with | some n => Float32.ofBits (UInt32.ofNat n) | none => 0.0
+    match a.count (parseFList ((arg? ws "sc").getD "-")) ((argNat? ws "x").getD 0) wt with
+    | some ct => (s, "ok " ++ ",".intercalate (ct.map fnum)) | none => (s, "fault")
+  else if op == "iavg" then
+    let sc := (parseIList ((arg? ws "sc").getD "-")).map fun (i : Int) => (Float32.ofInt i)
+    match a.avgScore ((argNat? ws "x").getD 0) sc with
+    | some r => (s, s!"ok {if a.xIsResidue ((argNat? ws "x").getD 0) then roundI r else 0}") | none => (s, "fault")
+  else if op == "iexpect" then
+    let sc := (parseIList ((arg? ws "sc").getD "-")).map fun (i : Int) => (Float32.ofInt i)
+    match a.expectScore ((argNat? ws "x").getD 0) sc (parseFList ((arg? ws "p").getD "-")) with
+    | some r => (s, s!"ok {if a.xIsResidue ((argNat? ws "x").getD 0) then roundI r else 0}") | none => (s, "fault")
+  else if op == "sqroundtrip" then
+    let txt := argBytes ws "hex"
+    if cstr txt ≠ txt then (s, "bad-op") else
+    (s, Sq.roundtripLine a txt ((argNat? ws "rc").getD 0 ≠ 0) hx)
+  else if op == "sqrevtext" then
+    let txt := argBytes ws "hex"
+    if cstr txt ≠ txt then (s, "bad-op") else
+    let (st, t) := Sq.revcompText txt
+    (s, s!"{st.name} seq={hx t}")
+  else (s, "bad-op")
+
+def main : IO Unit := runDriver ({} : S) step
